@@ -53,7 +53,16 @@ fn logging_rules() -> gen::VS {
 
 fn history_rules() -> gen::VS {
     let general = rules::rooted(rules::Cfg::new(&["var", "cat", "+", "if", "==", "<", "merge", "map", "filter", "reduce", "in", "substr", "missing", "and", "or", "!", "all", "log", "max"]).keys(&["a", "b", "s", "t", "xs", "", "0", "$index", "index", "xs.length"]).vars(8).poison(1).bad_arity(20).depth(2));
-    prop_oneof![3 => sensitive_rules(), 3 => logging_rules(), 4 => general, 1 => rules::poison()].boxed()
+    // literals named like the impure operators an extension would add (clock, randomness, environment, counters): on the
+    // unchanged tree they evaluate to themselves; if one of them ever becomes an operator, its result must still be the
+    // same whenever and wherever it is evaluated
+    let impure_named = (select(vec!["now", "date", "today", "time", "timestamp", "datetime", "random", "rand", "uuid", "env", "getenv", "counter", "next", "seq", "id", "hostname", "pid", "thread", "clock", "nanos"]), prop_oneof![Just(json!([])), Just(Value::Null), Just(json!("HOME")), Just(json!([1, 10]))]).prop_map(|(k, v)| {
+        let mut m = serde_json::Map::new();
+        m.insert(k.to_string(), v);
+        let lit = Value::Object(m);
+        json!({"merge": [{"var": ["nope", lit.clone()]}, {"or": [lit]}]})
+    });
+    prop_oneof![6 => sensitive_rules(), 6 => logging_rules(), 8 => general, 2 => rules::poison(), 1 => impure_named].boxed()
 }
 
 fn history_data() -> gen::VS {
